@@ -1154,9 +1154,13 @@ class _Bitwise(Contract):
 
     def configs(self, tier):
         out = []
-        for n in ((3,) if tier == "quick" else (2, 8)):
+        for n in ((3,) if tier == "quick" else (2, 6, 8)):
             for m in MODES:
                 for k in ("ss", "sk"):
+                    if n == 8 and k == "ss":
+                        continue          # two symbolic 8-bit operands sit at the solvers' limit (verdicts flip under load)
+                    if n == 6 and k == "sk":
+                        continue
                     out.append(dict(mode=m, kind=k, bits=n))
         return out
 
